@@ -233,7 +233,7 @@ class Roles:
                 g = self.p.cfg(f)
                 for n in g.nodes:
                     if n.kind == 'throw':
-                        if any(any(x['k'] == 'member' and x['name'] == flag for x in SX.walk(ce)) and pol for ce, pol, _ in g.guards(n)):
+                        if any(any(x['k'] == 'member' and x['name'] == flag for x in SX.walk(ce)) for ce, pol, _ in g.guards(n)):
                             c.append(f)
                             break
             if not c:
